@@ -43,11 +43,23 @@ def run(ctx, model_ok=True):
             t = t.replace(b'\xc3', b'\xc3\xa9')
         lines.append(f"pasenc pe{i} {hexs(t) if t else '-'}")
     for i in range(30 if quick else 300):
+        t = ptext()[:1500]
+        try:
+            t.decode('utf-8')
+        except UnicodeDecodeError:
+            t = t.replace(b'\xc3', b'\xc3\xa9')
+        fs = ['dos3x', 'prodos', 'cpm'][i % 3]
+        lines.append(f"txtenc te{i} {fs} {hexs(t) if t else '-'}")
+        n = rng.choice([0, 1, 2, 5, 100, 300])
+        d = bytes(rng.choice([0x8d, 0x0d, 0x0a, 0x1a, 0x00, 0x7f, 0x80, 0xff, 0xc1, 0x41, rng.randrange(256)]) for _ in range(n))
+        # decoders answer with a string: keep the bytes they produce below 128 (everything they can emit is, by construction)
+        lines.append(f"txtdec td{i} {fs} {hexs(d) if d else '-'}")
+    for i in range(30 if quick else 300):
         n = rng.choice([0, 1, 2, 5, 100, 1024, 1500])
         d = bytes(rng.choice([0x10, 0x0d, 0x00, 0x1f, 0x20, 0x21, 0x7e, 0x7f, 0x80, 0xff, 0x41, rng.randrange(256)]) for _ in range(n))
         lines.append(f"pasdec pd{i} {hexs(d) if d else '-'}")
     if model_ok:
-        fw.correspond(ctx, 'pack-pieces (desequence chunking, DOS binary/token headers vs Pack/Fimg.v; Pascal text encoder and decoder vs Pack/PascalText.v)', lines)
+        fw.correspond(ctx, 'pack-pieces (desequence chunking, DOS binary/token headers vs Pack/Fimg.v; Pascal text encoder and decoder vs Pack/PascalText.v; DOS/ProDOS/CP-M text converters vs Pack/Text.v)', lines)
     olines = []
     k = 0
     for fs in ['dos3x', 'prodos', 'pascal', 'cpm', 'fat']:
